@@ -841,9 +841,19 @@ fn extract_actor_ref(repo: &std::path::Path, out: &mut Out) {
                     format!("  (\"{}\", \"{}\", \"{}\", [{}], {})", s.func, s.reason, s.label, s.errors.iter().map(|e| format!("\"{e}\"")).collect::<Vec<_>>().join(", "), fam(&s.func) == fam(&s.label) && fam(&s.func) != "?")
                 })
                 .collect();
+            // record calls anywhere else in the crate (the actor loop, the reply path, the trait objects):
+            // a dead letter is recorded only by the operation that fails
+            let mut elsewhere = 0usize;
+            for other in ["src/lib.rs", "src/actor.rs", "src/handler.rs", "src/actor_control.rs", "src/actor_result.rs", "src/error.rs"] {
+                if let Ok(t) = std::fs::read_to_string(repo.join(other)) {
+                    let t = strip_ws(&t);
+                    elsewhere += t.matches("dead_letter::record").count() + t.matches("dead_letter::{self").count() + t.matches("dead_letter::{record").count();
+                }
+            }
             Ok(format!(
                 "/-- every `dead_letter::record` call: (enclosing fn, reason, operation label, Error variants built in the same block, label is of the method's family) -/\n\
-                 def dead_letter_sites : List (String × String × String × List String × Bool) := [\n{}\n]\n",
+                 def dead_letter_sites : List (String × String × String × List String × Bool) := [\n{}\n]\n\
+                 /-- record calls (or imports of the recorder) outside src/actor_ref.rs -/\ndef dead_letter_sites_elsewhere : Nat := {elsewhere}\n",
                 rows.join(",\n")
             ))
         })(),
